@@ -945,3 +945,41 @@ func c13tombstonesAlwaysAttached(c *an.Ctx) {
 		f.FollowedByOnSuccess(r, mk, at, nil, "tombstone index created ⇒ attached to the series indexes of the policy")
 	}
 }
+
+func init() {
+	old := All["C13"].Run
+	All["C13"].Run = func(c *an.Ctx) {
+		old(c)
+		c13dropDatabaseRemovesDirs(c)
+	}
+	All["C13"].Rules += " R13"
+	addLevel("C13", "the store acknowledges DROP DATABASE for a partition only after the partition's data and log directories were removed — also when the partition is not loaded (a store that was down when the database was marked deleted).")
+}
+
+// c13dropDatabaseRemovesDirs — C13.R13.
+func c13dropDatabaseRemovesDirs(c *an.Ctx) {
+	const E = "engine"
+	r := c.Rule("C13.R13", "K-ORDER", E+":(*EngineImpl).DeleteDatabase — every successful return is preceded by deleteDataAndWalPath (also for a partition that is not loaded)")
+	f := fn(r, E+":EngineImpl.DeleteDatabase")
+	if f == nil {
+		return
+	}
+	del := f.Find(call(r, E+":deleteDataAndWalPath"))
+	if r.Failed() {
+		return
+	}
+	// successful returns: `return nil`, and `return deleteDataAndWalPath(…)` (its own success)
+	rets := f.Find(an.MReturn("nil", func(g *an.Fn, rs *ast.ReturnStmt) bool {
+		return len(rs.Results) == 1 && an.IsNilIdent(g.Info, rs.Results[0])
+	}))
+	r.AddSites(del.Len() + rets.Len())
+	if del.Len() == 0 {
+		r.Fail(f.Name+": removal", c.P.Pos(f.Body.Pos()), "DeleteDatabase no longer removes the partition's directories")
+		return
+	}
+	for _, s := range rets.List {
+		if p := f.FPath([]int{f.G.Entry}, s.V, del.Sync().Vs(), nil); p != nil {
+			r.Fail(f.Name+": acknowledged without removing the directories", c.P.Pos(s.Node.Pos()), "DeleteDatabase can return nil without having called deleteDataAndWalPath: the drop is acknowledged while data/<db>/<pt> and wal/<db>/<pt> stay on disk and come back when the database is re-created; path (lines): %s", f.DescribePath(p))
+		}
+	}
+}
